@@ -217,6 +217,27 @@ def expect_format_error(ctx, case, path, sheet, kind, may_be_benign=False):
     ctx.violation("C15:fault-accepted:%s" % kind, case, "fault was not reported", expected="DataFormatError", observed=rows)
 
 
+def expect_rows_or_format_error(ctx, case, path, want):
+    from cutplace import errors, rowio
+
+    ctx.case(case, True)
+    ctx.count("faults")
+    try:
+        rows = list(rowio.ods_rows(path, 1))
+    except errors.DataFormatError:
+        ctx.count("deep-nesting.refused")
+        return
+    except Exception as error:
+        from cpverif import core
+
+        mod, fn = core.innermost_cutplace_frame(error)
+        ctx.violation("C15:fault-escape:%s:%s@%s.%s" % (case["fault"], type(error).__name__, mod, fn), case, "deeply nested elements ended in something else than rows or a data-format error",
+                      expected="rows or DataFormatError", observed=error)
+        return
+    if rows != want:
+        ctx.violation("C15:deep-nesting-misread", case, "deeply nested elements were read as another table", expected=want, observed=rows)
+
+
 def check_faults(ctx, index):
     rng = ctx.rng("fault", index)
     table = [["a", "a", "b"], ["a", "a", "b"], ["c", "", "d e"]]
@@ -268,6 +289,24 @@ def check_faults(ctx, index):
             xml = storage.ods_content([[["a   b"]]], ("s",))
             storage.write_ods_raw(path, xml.replace('text:c="2"', 'text:c="%s"' % attr).encode("utf-8"))
             expect_format_error(ctx, {"fault": "space-count", "value": attr}, path, 1, "space-count:absurd")
+        # white space that XML does not know next to a count: not a number
+        for attr in ("\u00a02", "2\u2003", "\u30002", "2\u0085"):
+            storage.write_ods(path, sheets, ("colruns",), cell_repeat_attr=attr)
+            expect_format_error(ctx, {"fault": "column-repeat-count", "value": attr}, path, 1, "column-repeat-count:non-numeric")
+            storage.write_ods(path, sheets, ("rowruns",), row_repeat_attr=attr)
+            expect_format_error(ctx, {"fault": "row-repeat-count", "value": attr}, path, 1, "row-repeat-count:non-numeric")
+        # elements nested deeper than any recursion limit: the rows or a data-format error, nothing else
+        for depth in (1200, 5000):
+            deep_spans = "<text:span>" * depth + "deep" + "</text:span>" * depth
+            xml = storage.ods_content([[["a", "MARK"]]], ()).replace("MARK", deep_spans)
+            storage.write_ods_raw(path, xml.encode("utf-8"))
+            expect_rows_or_format_error(ctx, {"fault": "deeply-nested-spans", "depth": depth}, path, [["a", "deep"]])
+            xml = storage.ods_content([[["a"], ["b"]]], ())
+            xml = xml.replace("<table:table-row>", "<table:table-row-group>" * depth + "<table:table-row>", 1)
+            k = xml.rindex("</table:table-row>") + len("</table:table-row>")
+            xml = xml[:k] + "</table:table-row-group>" * depth + xml[k:]
+            storage.write_ods_raw(path, xml.encode("utf-8"))
+            expect_rows_or_format_error(ctx, {"fault": "deeply-nested-row-groups", "depth": depth}, path, [["a"], ["b"]])
         # "1_0", Arabic-Indic and full-width digits are numbers for Python's int() but not for XML Schema's positiveInteger
         for attr in ("0", "-1", "x", "", "1.5", " 2", "1_0", "\u0661\u0660", "\uff11\uff12", "1e1", "0x10"):
             storage.write_ods(path, sheets, ("colruns",), cell_repeat_attr=attr)
